@@ -19,6 +19,20 @@ type Env struct {
 	ExtBasic      []*Decl
 	Opt           EnvOpt
 	foreign       []*Decl // declarations of ext packages generated before the current one
+	// Aliases are alias declarations of the subject package (type A0 = T) over declarations that precede the
+	// general structs, so that struct fields can be spelled through them.
+	Aliases []*AliasDecl
+	// XTest: the package directory also holds an external test package (package p_test) without derive calls.
+	XTest bool
+	// UserDecls are package level declarations of the user whose names look like names goderive mints for helpers
+	// (deriveEqual_, deriveHash_1 ...). They are never called.
+	UserDecls []string
+}
+
+// AliasDecl is an alias declaration of the subject package.
+type AliasDecl struct {
+	Name   string
+	Target *Type
 }
 
 // EnvOpt tunes the environment.
@@ -32,6 +46,10 @@ type EnvOpt struct {
 	PtrKeys       bool // also declare a key struct that holds a pointer (legal Go map key, compared by identity)
 	NoFloatKeys   bool
 	NoBlankFields bool // by default one struct in four has a blank field (_ T) of a basic type
+	NoAliases     bool // by default half of the environments declare 1-2 aliases and use them as field / argument types
+	NoUnicode     bool // by default one environment in five gives its general structs names that start with a multi-byte letter
+	NoResultNames bool // by default one signature in three has named results
+	NoUserDecls   bool // by default one environment in three declares objects named like minted helper names
 	// Avoid lists finding ids whose region the generator must not enter.
 	Avoid map[string]bool
 }
@@ -156,6 +174,32 @@ func DrawEnv(t *rapid.T, opt EnvOpt) *Env {
 		}
 		e.NamedComp = append(e.NamedComp, &Decl{Name: fmt.Sprintf("N%d", i), Under: u})
 	}
+	// aliases over what exists so far (so that the general structs can use them by value)
+	if !opt.NoAliases && rapid.Bool().Draw(t, "aliases") {
+		na := rapid.IntRange(1, 2).Draw(t, "naliases")
+		for i := 0; i < na; i++ {
+			var target *Type
+			var pool []*Decl
+			switch rapid.IntRange(0, 5).Draw(t, "aliaskind") {
+			case 0, 1:
+				pool = e.KeyStructs
+			case 2:
+				pool = append(append([]*Decl{}, e.ExtStructs...), e.ExtKeys...)
+			case 3:
+				pool = append(append([]*Decl{}, e.NamedBasic...), e.NamedComp...)
+			}
+			switch {
+			case len(pool) > 0:
+				target = NamedT(pick(t, "aliasdecl", pool))
+			case len(e.KeyStructs) > 0 && rapid.Bool().Draw(t, "aliascomp"):
+				ks := NamedT(pick(t, "aliasks", e.KeyStructs))
+				target = pick(t, "aliasshape", []*Type{SliceOf(ks), PtrTo(ks), MapOf(B("string"), ks), ArrayOf(2, ks)})
+			default:
+				target = pick(t, "aliasbasic", []*Type{SliceOf(B("int")), MapOf(B("string"), B("bool")), B("float64"), PtrTo(B("string"))})
+			}
+			e.Aliases = append(e.Aliases, &AliasDecl{Name: fmt.Sprintf("A%d", i), Target: target})
+		}
+	}
 	// general structs; struct i may refer by value to structs < i, and through * [] map to any struct.
 	max := opt.MaxStructs
 	if max == 0 {
@@ -163,8 +207,12 @@ func DrawEnv(t *rapid.T, opt EnvOpt) *Env {
 	}
 	ns := rapid.IntRange(1, max).Draw(t, "nstructs")
 	gen := make([]*Decl, ns)
+	sname := "S%d"
+	if !opt.NoUnicode && rapid.IntRange(0, 4).Draw(t, "unicodenames") == 0 {
+		sname = "\u00c4%d" // an exported name whose first letter takes two bytes
+	}
 	for i := range gen {
-		gen[i] = &Decl{Name: fmt.Sprintf("S%d", i), IsStruct: true}
+		gen[i] = &Decl{Name: fmt.Sprintf(sname, i), IsStruct: true}
 	}
 	for i, d := range gen {
 		nf := rapid.IntRange(0, 6).Draw(t, "nfields")
@@ -205,6 +253,30 @@ func DrawEnv(t *rapid.T, opt EnvOpt) *Env {
 	}
 	for _, d := range gen {
 		d.Recursive = reaches(d, d)
+	}
+	e.XTest = rapid.IntRange(0, 3).Draw(t, "xtest") == 0
+	if !opt.NoUserDecls && rapid.IntRange(0, 2).Draw(t, "userdecls") == 0 {
+		n := rapid.IntRange(1, 3).Draw(t, "nuserdecls")
+		seen := map[string]bool{}
+		for i := 0; i < n; i++ {
+			prefix := pick(t, "udprefix", []string{"deriveEqual", "deriveCompare", "deriveHash", "deriveDeepCopy", "deriveKeys", "deriveSort",
+				"deriveClone", "deriveGoString", "deriveContains", "deriveSet", "deriveTuple", "deriveFmap", "deriveJoin", "deriveMin"})
+			name := prefix + pick(t, "udsuffix", []string{"_", "_", "_1", "_2", "_S", "_K", "_M", "_3"})
+			if seen[name] {
+				continue
+			}
+			seen[name] = true
+			switch rapid.IntRange(0, 3).Draw(t, "udkind") {
+			case 0:
+				e.UserDecls = append(e.UserDecls, fmt.Sprintf("func %s(a, b int) bool { return a == b }", name))
+			case 1:
+				e.UserDecls = append(e.UserDecls, fmt.Sprintf("var %s = 1", name))
+			case 2:
+				e.UserDecls = append(e.UserDecls, fmt.Sprintf("type %s struct{ A int }", name))
+			default:
+				e.UserDecls = append(e.UserDecls, fmt.Sprintf("const %s = \"c\"", name))
+			}
+		}
 	}
 	if opt.UserMethods {
 		for _, d := range e.Structs {
@@ -380,6 +452,10 @@ func (e *Env) DrawKey(t *rapid.T, depth int) *Type {
 
 // drawType draws a type; byValue are structs usable by value, all are structs usable behind * [] map.
 func (e *Env) drawType(t *rapid.T, depth int, byValue, all []*Decl, self *Decl) *Type {
+	if len(e.Aliases) > 0 && rapid.IntRange(0, 7).Draw(t, "usealias") == 0 {
+		a := pick(t, "alias", e.Aliases)
+		return a.Target.Aliased(a.Name)
+	}
 	c := rapid.IntRange(0, 13).Draw(t, "type")
 	if depth <= 0 && c >= 6 {
 		c = c % 6
